@@ -155,80 +155,53 @@ Fixpoint foreign_from (s : st) (h : list (N * N)) (tr : list msg) : bool :=
 Definition foreign_lock (max : nat) (tr : list msg) : bool := foreign_from (init max) [] tr.
 
 (* ---- "eventually granted": bounded overtaking ----
-   oracle (on the observed grants): while (c, r) waits on live channels, room r is granted to OTHER
-   connections at most `bypass_bound` times (number of connections x (number of rooms + 1): every
-   other connection may pass once per room c itself is served in between). *)
+   oracle (on the observed grants): while (c, r) waits, none of c's channels was ever dropped and c is
+   granted nothing, room r is granted to OTHER connections at most `ncirc` times, ncirc = the number
+   of connections that request anything in the history (fewer than that many entries can stand
+   before c's in the queue; each passes at most once before c is served: theorems
+   C20_bounded_overtaking / C20_overtaking_oracle_holds).  The count of (c, r) starts again whenever c
+   is granted a room. *)
 Fixpoint dedupN (l : list N) : list N :=
   match l with [] => [] | x :: t => if memN x t then dedupN t else x :: dedupN t end.
 Definition circuits_of (tr : list msg) : list N :=
   dedupN (flat_map (fun m => match m with Request c _ _ => [c] | _ => [] end) tr).
-Definition rooms_of (tr : list msg) : list N :=
-  dedupN (flat_map (fun m => match m with Request _ rs _ => rs | _ => [] end) tr).
-Definition bypass_bound (tr : list msg) : nat := length (circuits_of tr) * S (length (rooms_of tr)).
-
-Definition bp_msg (w : list (N * N * nat)) (m : msg) : list (N * N * nat) :=
+Definition ncirc (tr : list msg) : nat := length (circuits_of tr).
+(* oracle state: waiting (c, r) with its count; connections one of whose channels was dropped *)
+Definition bpst := (list (N * N * nat) * list N)%type.
+Definition bp_msg (b : bpst) (m : msg) : bpst :=
+  let '(w, t) := b in
   match m with
   | Request c rooms _ =>
-      fold_left (fun acc r => if existsb (fun x => pair_eqb (fst x) (c, r)) acc then acc else acc ++ [((c, r), O)]) rooms w
-  | DropChan c _ => filter (fun x => negb (N.eqb (fst (fst x)) c)) w      (* no promise to that connection any more *)
-  | Unlock _ _ => w
+      if memN c t then b else
+      (fold_left (fun acc r => if existsb (fun x => pair_eqb (fst x) (c, r)) acc then acc else acc ++ [((c, r), O)]) rooms w, t)
+  | DropChan c _ => (filter (fun x => negb (N.eqb (fst (fst x)) c)) w, c :: t)     (* no promise to that connection any more *)
+  | Unlock _ _ => b
   end.
-Definition bp_grant (w : list (N * N * nat)) (g : grant) : list (N * N * nat) :=
-  let '(c, _, r) := g in
-  map (fun x => if N.eqb (snd (fst x)) r then (fst x, S (snd x)) else x)
-      (filter (fun x => negb (pair_eqb (fst x) (c, r))) w).
-Fixpoint bypass_from (bound : nat) (w : list (N * N * nat)) (tr : list msg) (gss : list (list grant)) : bool :=
+(* the grants of one message, whatever their order: a granted (c, r) stops waiting; the other rooms
+   of a connection that was granted something start counting again; otherwise every grant of r counts *)
+Definition bp_grants (w : list (N * N * nat)) (gs : list grant) : list (N * N * nat) :=
+  map (fun x => if existsb (fun g : grant => N.eqb (fst (fst g)) (fst (fst x))) gs then (fst x, O)
+                else (fst x, (snd x + length (filter (fun g : grant => N.eqb (snd g) (snd (fst x))) gs))%nat))
+      (filter (fun x => negb (existsb (fun g : grant => pair_eqb (fst (fst g), snd g) (fst x)) gs)) w).
+Fixpoint bypass_from (bound : nat) (b : bpst) (tr : list msg) (gss : list (list grant)) : bool :=
   match tr, gss with
   | [], [] => true
   | m :: tl, gs :: gtl =>
-      let w' := fold_left bp_grant gs (bp_msg w m) in
-      forallb (fun x => Nat.leb (snd x) bound) w' && bypass_from bound w' tl gtl
+      let b1 := bp_msg b m in
+      let w' := bp_grants (fst b1) gs in
+      forallb (fun x => Nat.leb (snd x) bound) w' && bypass_from bound (w', snd b1) tl gtl
   | _, _ => false
   end.
 Definition bypass_ok (tr : list msg) (obs : list Z) : bool :=
   match decode (length tr) obs with
-  | Some gss => bypass_from (bypass_bound tr) [] tr gss
+  | Some gss => bypass_from (ncirc tr) ([], []) tr gss
   | None => false
   end.
 
-(* class 3 (K3, the rotation demotes a blocked waiter), by its cause: in some scan of acquire_lock a
-   live entry whose rooms are all locked is examined, a later entry is granted, and entries that
-   were not examined remain: the blocked entry is re-queued BEHIND the entries that were behind it.
-   Repeating this lets a request be overtaken without bound (theorem C20_starvation_refuted). *)
-Fixpoint acq_demotes (q : list preq) (lk : list rid) (dd : list (N * N)) (seen_blocked : bool) : bool :=
-  match q with
-  | [] => false
-  | p :: rest =>
-      let '(rooms', g) := try_rooms (length (p_rooms p)) (p_rooms p) lk (alive dd p) in
-      match g with
-      | Some _ => seen_blocked && match rest with [] => false | _ => true end
-      | None => acq_demotes rest lk dd (seen_blocked || (alive dd p && match rooms' with [] => false | _ => true end))
-      end
-  end.
-Fixpoint demotes_n (n : nat) (s : st) : bool :=
-  match n with
-  | O => false
-  | S k => acq_demotes (queue s) (locked s) (dead s) false || demotes_n k (fst (acquire_lock s))
-  end.
-Definition demotes_step (s : st) (m : msg) : bool :=
-  match m with
-  | Request c rooms k =>
-      demotes_n (avail s) {| queue := enqueue (queue s) c rooms k; locked := locked s; avail := avail s; dead := dead s |}
-  | Unlock _ r =>
-      if memN r (locked s) then acq_demotes (queue s) (removeN r (locked s)) (dead s) false else false
-  | DropChan _ _ => false
-  end.
-Fixpoint demoted_from (s : st) (tr : list msg) : bool :=
-  match tr with
-  | [] => false
-  | m :: tl => demotes_step s m || demoted_from (fst (step s m)) tl
-  end.
-Definition demoted_lock (max : nat) (tr : list msg) : bool := demoted_from (init max) tr.
-
+(* known class of the service level: class 1 only.  (Class 3, starvation through the rotation of
+   acquire_lock, was repaired by 11e9468: peers that cannot be served keep their place.) *)
 Definition known_lock (max : nat) (tr : list msg) : list Z :=
-  let live := snd (spec_pair_lock max tr (run_lock max tr)) in
-  (if foreign_lock max tr && live then [1%Z] else []) ++
-  (if demoted_lock max tr && live then [3%Z] else []).
+  if foreign_lock max tr && snd (spec_pair_lock max tr (run_lock max tr)) then [1%Z] else [].
 
 (* ---------------- connection level ----------------
    observation per event: the grants of the event (as above), then the room tasks in flight after
